@@ -68,7 +68,7 @@ def gen(rng, tier):
     faults = []
     if crash and rng.random() < 0.4:
         faults.append(dict(kind="kill", target=["w", rng.randrange(4)], sig=9, at=["op", rng.randint(1, 100)]))
-    return dict(family="reusable", knobs=focus_hot(rng, gen_knobs(rng, tier), threads), model=gen_model(rng), threads=threads, faults=faults,
+    return dict(crashy=crash, family="reusable", knobs=focus_hot(rng, gen_knobs(rng, tier), threads), model=gen_model(rng), threads=threads, faults=faults,
                 nthreads=nthreads)
 
 
@@ -136,6 +136,9 @@ class C09(Prop):
                         has_fresh_objects = bool(kw.get("job_reducers") or kw.get("result_reducers"))
                         reuse = (not has_fresh_objects) and last_kw is not None and _kw_identity(kw) == last_kw
                     exp_same = bool(healthy and reuse)
+                if exp_same and not r["same"] and (prev.get("broken_at_return") or prev.get("shutdown_at_return")) \
+                        and (X.injected_kills(res) or res.spec.get("crashy")):
+                    exp_same = False       # the previous instance stopped being healthy while the call was in progress
                 if exp_same != r["same"]:
                     out.append(V(pid, "C09/reuse-decision/%s" % ("reused" if r["same"] else "replaced"),
                                  "expected same=%r got %r (prev=%r kw=%r)" % (exp_same, r["same"], prev, kw)))
